@@ -3,32 +3,66 @@ use aelys_sema::{TypedExpr, TypedExprKind, TypedStmt, TypedStmtKind};
 
 impl GlobalConstantPropagator {
     // can this expr be evaluated at compile time?
-    pub(super) fn is_constant_expr(&self, expr: &TypedExpr) -> bool {
+    // `before`: top-level index of the statement the expression belongs to; only constants
+    // defined by an earlier statement have their value when it is evaluated
+    pub(super) fn is_constant_expr(&self, expr: &TypedExpr, before: usize) -> bool {
         match &expr.kind {
             TypedExprKind::Int(_)
             | TypedExprKind::Float(_)
             | TypedExprKind::Bool(_)
             | TypedExprKind::String(_)
             | TypedExprKind::Null => true,
-            TypedExprKind::Identifier(name) => self.constants.contains_key(name),
+            TypedExprKind::Identifier(name) => {
+                self.constants.contains_key(name)
+                    && self.positions.get(name).is_some_and(|p| *p < before)
+            }
             TypedExprKind::Binary { left, right, .. } => {
-                self.is_constant_expr(left) && self.is_constant_expr(right)
+                self.is_constant_expr(left, before) && self.is_constant_expr(right, before)
             }
-            TypedExprKind::Unary { operand, .. } => self.is_constant_expr(operand),
+            TypedExprKind::Unary { operand, .. } => self.is_constant_expr(operand, before),
             TypedExprKind::And { left, right } | TypedExprKind::Or { left, right } => {
-                self.is_constant_expr(left) && self.is_constant_expr(right)
+                self.is_constant_expr(left, before) && self.is_constant_expr(right, before)
             }
-            TypedExprKind::Grouping(inner) => self.is_constant_expr(inner),
+            TypedExprKind::Grouping(inner) => self.is_constant_expr(inner, before),
             TypedExprKind::If {
                 condition,
                 then_branch,
                 else_branch,
             } => {
-                self.is_constant_expr(condition)
-                    && self.is_constant_expr(then_branch)
-                    && self.is_constant_expr(else_branch)
+                self.is_constant_expr(condition, before)
+                    && self.is_constant_expr(then_branch, before)
+                    && self.is_constant_expr(else_branch, before)
             }
             // calls, assigns, lambdas, member access - not constant
+            _ => false,
+        }
+    }
+
+    // a statement that neither calls anything nor creates a function value: nothing declared
+    // in the program can run while it executes
+    pub(super) fn is_quiet_stmt(stmt: &TypedStmt) -> bool {
+        match &stmt.kind {
+            TypedStmtKind::Function(_) | TypedStmtKind::StructDecl { .. } | TypedStmtKind::Needs(_) => true,
+            TypedStmtKind::Let { initializer, .. } => Self::is_quiet_expr(initializer),
+            _ => false,
+        }
+    }
+
+    fn is_quiet_expr(expr: &TypedExpr) -> bool {
+        match &expr.kind {
+            TypedExprKind::Int(_)
+            | TypedExprKind::Float(_)
+            | TypedExprKind::Bool(_)
+            | TypedExprKind::String(_)
+            | TypedExprKind::Null
+            | TypedExprKind::Identifier(_) => true,
+            TypedExprKind::Binary { left, right, .. }
+            | TypedExprKind::And { left, right }
+            | TypedExprKind::Or { left, right } => {
+                Self::is_quiet_expr(left) && Self::is_quiet_expr(right)
+            }
+            TypedExprKind::Unary { operand, .. } => Self::is_quiet_expr(operand),
+            TypedExprKind::Grouping(inner) => Self::is_quiet_expr(inner),
             _ => false,
         }
     }
@@ -39,7 +73,7 @@ impl GlobalConstantPropagator {
         for _ in 0..10 {
             let prev_count = self.constants.len();
 
-            for stmt in stmts {
+            for (idx, stmt) in stmts.iter().enumerate() {
                 if let TypedStmtKind::Let {
                     name,
                     mutable,
@@ -53,10 +87,11 @@ impl GlobalConstantPropagator {
                     if !super::super::binders::is_bound_once(&self.binders, name) {
                         continue;
                     }
-                    if self.is_constant_expr(initializer) {
+                    if self.is_constant_expr(initializer, idx) {
                         let mut resolved = initializer.clone();
                         self.substitute_in_expr_for_collection(&mut resolved);
                         self.constants.insert(name.clone(), resolved);
+                        self.positions.insert(name.clone(), idx);
                     }
                 }
             }
